@@ -135,14 +135,22 @@ def run_mutant(m):
         revert()
 
 
-def run_seeded(sid):
-    d = f"/verif/seeded/{sid}"
+def run_seeded(sid, base="/verif/seeded"):
+    d = f"{base}/{sid}"
     meta = json.load(open(f"{d}/meta.json"))
     props = meta.get("checks", [meta["property"]])
     if os.environ.get("SELFTEST_CHECKS"):
         props = os.environ["SELFTEST_CHECKS"].split(",")
+    if os.environ.get("SELFTEST_RELATED") and meta.get("checks_related"):
+        # the checks of every property anchored in a file the change touches, the own one excepted
+        props = [p for p in meta["checks_related"] if p != meta["property"]]
+        if not props:
+            return
     revert()
     rec = {"id": sid, "kind": "seeded" if not os.environ.get("SELFTEST_CHECKS") else "seeded-cross", "desc": meta.get("what", ""), "expected": props}
+    if meta.get("kind") == "neutral":
+        # a behaviour-preserving change: every check must stay silent ("detected" would be a false alarm)
+        rec["kind"] = "neutral"
     try:
         r = sh(f"git -C {REPO} apply {d}/patch.diff")
         if r.returncode != 0:
@@ -178,7 +186,10 @@ if __name__ == "__main__":
     args = sys.argv[1:]
     if sh(f"git -C {REPO} status --porcelain").stdout.strip():
         print("refusing to run: /repo working tree is not clean"); sys.exit(2)
-    if args and args[0] == "--seeded":
+    if args and args[0] == "--neutral":
+        for sid in args[1:] or sorted(os.listdir("/verif/neutral")):
+            run_seeded(sid, "/verif/neutral")
+    elif args and args[0] == "--seeded":
         ids = args[1:] or sorted(os.listdir("/verif/seeded"))
         for sid in ids:
             run_seeded(sid)
